@@ -14,6 +14,8 @@
 -/
 import FqeVerif.Lemmas.BitsC
 import FqeVerif.Lemmas.Excite
+import FqeVerif.Lemmas.MapEach
+import FqeVerif.Lemmas.Subsets
 namespace C05
 open Model Fock
 
@@ -126,5 +128,43 @@ theorem C05_single_exc_injective (i j s s' : Nat) (e e' : Nat × Nat × Bool)
   have h3 := congrArg (fun x => Fock.flip (Fock.flip x i) j) ht
   simp only [Fock.flip_flip] at h3
   exact h3
+
+/-- **enumeration, reference side**: the two lists the string tables are compared with on every run
+    (`subsetsAsc`: the generator's numeric order; `subsetsLex`: the documented lexical order of the address
+    table) each contain exactly the bit patterns below `2^n` with `k` set bits, each exactly once, and the
+    first one is strictly increasing — for every orbital count and electron count -/
+theorem C05_enumeration_reference (n k s : Nat) :
+    (s ∈ subsetsAsc n k ↔ (s < 2 ^ n ∧ cnt s n = k)) ∧ (s ∈ subsetsLex n k ↔ (s < 2 ^ n ∧ cnt s n = k)) ∧
+    (subsetsAsc n k).Pairwise (· < ·) ∧ (subsetsAsc n k).Nodup ∧ (subsetsLex n k).Nodup :=
+  ⟨mem_subsetsAsc n k s, mem_subsetsLex n k s, subsetsAsc_sorted n k, subsetsAsc_nodup n k, subsetsLex_nodup n k⟩
+
+example : subsetsAsc 4 2 = [3, 5, 6, 9, 10, 12] ∧ subsetsLex 4 2 = [3, 5, 9, 6, 10, 12] := by decide
+
+/-- **operator-string tables**: for any lists of creation and annihilation indices (any length, repeated
+    indices allowed) and any string on which the operator string `a†_{dag…} a_{undag…}` acts (rightmost
+    factor first, FQE's descending sign rule) with result `(sign, t)`, the loop of `make_mapping_each`
+    names exactly that target and a count of that parity -/
+theorem C05_opstring (norb : Nat) (dag undag : List Nat) (s : Nat) (sg : Bool) (t : Nat)
+    (hs : s < 2 ^ norb) (hd : ∀ i ∈ dag, i < norb) (hu : ∀ i ∈ undag, i < norb)
+    (h : descApply norb (dag.map (fun i => (i, true)) ++ undag.map (fun i => (i, false))) s = some (sg, t)) :
+    ∃ p, mapEachStep dag undag s = (t, p) ∧ decide (p % 2 = 1) = sg := by
+  rw [mapEachStep_eq_stepFold]
+  have hb : ∀ x ∈ dag.map (fun i => (i, true)) ++ undag.map (fun i => (i, false)), x.1 < norb := by
+    intro x hx
+    rcases List.mem_append.mp hx with h1 | h1
+    · obtain ⟨i, hi, rfl⟩ := List.mem_map.mp h1; exact hd i hi
+    · obtain ⟨i, hi, rfl⟩ := List.mem_map.mp h1; exact hu i hi
+  obtain ⟨k, hk, hp, _⟩ := stepFold_spec norb _ s 0 sg t hs hb h
+  exact ⟨0 + k, hk, by simpa using hp⟩
+
+/-- the descending single-string step is the alpha part of FQE's determinant-level ladder step
+    (which Props/C01 proves equal to the Spec through ι) -/
+theorem C05_desc_is_fqe_alpha (norb : Nat) (dg : Bool) (q a b : Nat) :
+    fqeLadder norb dg false q a b = (descLadder norb dg q a).map (fun x => (x.1, x.2, b)) := by
+  unfold fqeLadder descLadder
+  by_cases h : a.testBit q = dg <;> simp [h]
+
+example : mapEachStep [2] [0] 0b011 = (0b110, 1) ∧
+    descApply 3 [(2, true), (0, false)] 0b011 = some (true, 0b110) := by decide +kernel
 
 end C05
